@@ -30,12 +30,13 @@ class QBitsDequantizer(Function):
     @staticmethod
     def forward(ctx, t):
         unpacked = t._data.unpack()
-        int8_data = unpacked.to(torch.int8) - t._zeropoint.to(torch.int8)
+        # The difference between a code and an int8 zeropoint does not fit in 8 bits: evaluate it as int16
+        shifted_data = unpacked.to(torch.int16) - t._zeropoint.to(torch.int16)
         if t.qtype.is_floating_point:
             # Upcast explicitly to the scale dtype
-            dqt = t._scale * int8_data.to(t._scale.dtype)
+            dqt = t._scale * shifted_data.to(t._scale.dtype)
         else:
-            dqt = t._scale * int8_data
+            dqt = t._scale * shifted_data
         if t.axis is None:
             return dqt
         # Restore the original shape (if needed)
